@@ -18,6 +18,8 @@ ENGINES = [
      "kind_free_text": "exhaustive small-alphabet enumeration of neighbour-visit sequences, geometry helpers, knn and bounding spheres against brute force"},
 ]
 
+E1_SPACE = (" State space (DESIGN section 9): every non-empty subset up to K of the lattice and general-position alphabets in 1D/2D/3D, reflective and periodic, three boxes plus a 2^-40 and a 2^20 box; every order of the generators in the input slice (n <= 3 quick / 4 thorough) where noted; deviation-bounded medium/large states (cell-centred 4^d lattice of 64/16 generators, Kronecker pools of 20/16/12 points, complete 125-point lattice in thorough, each with <= 1-2 generators removed; every subset of the 2^d cell-centred lattice); big-cell states (axis pair + ring of m, m-sided prism + neighbour above, jittered shells; m up to 300: more than 256 planes, faces, vertices per face, removed vertices per clip); masks: all 2^n up to the per-check bound, a deviation-bounded menu beyond.")
+
 # id -> (engine, technique, level text, level note, design ref)
 CHECKS = {
     "C01": ("E1 tess", "explicit-state enumeration of all small generator sets on lattice/generic alphabets; brute-force half-space-intersection oracle on every state",
@@ -33,13 +35,13 @@ CHECKS = {
             "Unit normals along right+shift-left or outward through the wall, centroids on the bisector/wall, closure and divergence identities for every constructed cell of every enumerated (state, mask).",
             "R9 wall faces: oracle area/centroid substituted for that single face in the two identities (known finding).", "3/C04"),
     "C05": ("E1 tess", "explicit-state enumeration of degenerate and near-degenerate input families in a debug-assertions and a release build; totality + C01-C04 verdict functions + every near-tie vertex decision checked against an integer (512-bit) determinant oracle",
-            "Every state of families A (exact dyadic lattices: walls, edges, corners, single, collinear, coplanar, co-spherical subsets; generic pool), B1 (2^-20..2^-50 displacements), B2 (clusters 2^-10..2^-40), B3 (co-spherical integer shells, co-circular sets), C (thirds lattice) and the 4^3 lattice with <= 1 deviation is built through Voronoi::build, VoronoiIntegrator::build and build_partial (all masks, n <= 3), in both build kinds: no panic, finite values, C01-C04 verdicts, and 'vertex removed <=> exact determinant < 0' for every vertex the floating point filter leaves undecided (clip-by-clip replay through the hook wrappers).",
-            "Known findings R5 (explicit lists of (clause, state id), one per build kind) and R9 (selector). Families A, B3 and L64 have no allowed failure. Inputs outside the families are not covered.", "3/C05"),
+            "Every state of families A (exact dyadic lattices: walls, edges, corners, single, collinear, coplanar, co-spherical subsets; generic pool), B1 (2^-20..2^-50 displacements), B2 (clusters 2^-10..2^-40), B3 (co-spherical integer shells, co-circular sets), C (thirds lattice), B4 (Fibonacci shells of up to 300 generators on one sphere, exact co-circular rings around an axis), D (medium/large lattices and pools, big cells), E (lattice alphabets with wall contact in the 2^-40 box; scale ladder 2^-8..2^-48) and the 4^3 lattice with <= 1 deviation is built through Voronoi::build, VoronoiIntegrator::build and build_partial (all masks, n <= 3), in both build kinds: no panic, finite values, C01-C04 verdicts, and 'vertex removed <=> exact determinant < 0' for every vertex the floating point filter leaves undecided (clip-by-clip replay through the hook wrappers).",
+            "Known findings R5 and R11 (explicit lists of (clause, state id), one per build kind) and R9 (selector). Families A, B3 and L64 have no allowed failure. Inputs outside the families are not covered.", "3/C05"),
     "C06": ("E1 tess", "explicit-state enumeration of periodic states; differential oracle (reflective build of the 3^d-fold replicated set), structural invariants, translation transitions",
             "For every periodic state (n >= 1, incl. n = 1, 2): central block of the reflective tessellation of the replicated set equals the periodic result (volumes, centroids, face maps with image offsets); no boundary face along periodic axes; every shift is an exact lattice vector, absent iff zero, and places the right generator next to the face; 11-14 translations (wrapped) leave every cell measure and per-neighbour face area unchanged.",
             "The replicated comparison uses the library itself as oracle (the independent O-cell comparison of periodic states with +-2 images is part of C01); n <= 3 (quick) / 4 (thorough) for the replicated build.", "3/C06"),
     "C07": ("E1 tess", "explicit-state enumeration of the Boolean lattice of masks over every state; each node compared bitwise with the full build",
-            "For every state and every mask (n <= 4 quick / 5 thorough; deviation-bounded masks above): selected cells bitwise equal to the full build (volume, centroid, loc, safety radius; ConvexCells bitwise through the integrator route), same face map, unselected cells zero, ownership rules of stored faces and of the symmetric face integrals, get_cell_at/cells_iter vs mask.",
+            "For every state and every mask (n <= 4 quick / 5 thorough; deviation-bounded masks above): selected cells bitwise equal to the full build (volume, centroid, loc, safety radius; ConvexCells bitwise through the integrator route), same face map, unselected cells zero, ownership rules of stored faces and of the symmetric face integrals, get_cell_at/cells_iter vs mask; the same restriction through the type-state conversions (after with_faces() slot i holds cell i or None exactly for unselected i; cell integrals and Voronoi::from(&with_faces) agree); every input order of the generators.",
             "Mask-flip edges are covered by transitivity (every node is compared with the same full build).", "3/C07"),
     "C08": ("E1 tess", "explicit-state enumeration of 1D/2D states; transitions = rewriting unused coordinates (all single deviations, all pairs with extreme values); closed form; 3D slab differential",
             "Bitwise invariance of the result under every rewrite of an unused coordinate of a generator, the anchor or the width (values incl. -0.0, 1e300, NaN, inf), 1D closed form (lengths, centroids, two unit faces, neighbours and shifts), 2D = 3D slab, all reported normals/shifts inside the active subspace.",
@@ -56,7 +58,7 @@ CHECKS = {
     "C16": ("E1 tess", "explicit-state search over the add-a-generator graph: nodes = generator sets, edges = S -> S + p (alphabet points and ring points around every safety ball)",
             "Node invariant: safety radius >= 2 x farthest oracle vertex (active subspace) and >= distance to every face neighbour. Edge relations: a generator added outside the safety ball (all periodic images) leaves the cell unchanged (measure, centroid, face map); no cell grows.", "Ring points that hit the R5 class (panic) are counted, not judged.", "3/C16"),
     "C09": ("E2 sched", "stateless schedule exploration (depth-first over choice sequences, deviation-bounded) of the real crate compiled against a controlled executor with rayon's API; conformance against the sequential build and real rayon pools",
-            "The crate's real closures run on real OS worker threads under a scheduler that owns every decision of rayon's contract (partition into contiguous chunks, chunk order, worker of each chunk, answer of current_num_threads). For inputs with <= 4 generators every parallel region of the whole pipeline (build, build_partial, integrator build, with_faces, every compute_*, From) is explored exhaustively (554 schedules for 4 items, W = 2) while the others take the default schedule, plus all schedules with <= 2 deviations anywhere; larger inputs (8, 12, 27 generators; exact ties) with <= 2 / <= 1 deviations. Oracle: byte equality of a sectioned digest of all outputs with the default schedule, with a second run of the same schedule, with the sequential (no rayon feature) build and with real rayon pools of 1,2,3,4,8,16,64 threads.",
+            "The crate's real closures run on real OS worker threads under a scheduler that owns every decision of rayon's contract (partition into contiguous chunks, chunk order, worker of each chunk, answer of current_num_threads). For inputs with <= 4 generators every parallel region of the whole pipeline (build, build_partial, integrator build, with_faces, every compute_*, From) is explored exhaustively (554 schedules for 4 items, W = 2) while the others take the default schedule, plus all schedules with <= 2 deviations anywhere; larger inputs (8, 12, 27 generators; exact ties) with <= 2 / <= 1 deviations. Oracle: byte equality of a sectioned digest of all outputs with the default schedule, with a second run of the same schedule, with the sequential (no rayon feature) build and with real rayon pools of 1,2,3,4,8,16,64 threads. Nested parallel regions (a chunk that enters a parallel region) are planned and explored like top-level ones; one input has a 136-vertex cell. Call histories: every ordered pair of the 20 inputs (thorough: every triple of the 12 history-only inputs too, which collide on width / dimensionality / boundary kind / generator count / length scale) run one after the other on the persistent workers of one fresh real pool (1 and 2 threads): the last result must be the result of that input alone (state leaking between calls through thread-locals, statics or caches).",
             "The scheduling model is rayon's documented contract, not rayon-core's lock-free internals (third-party std atomics that loom/shuttle cannot intercept). Real-rayon runs are a conformance sample. The shim models the API subset the crate uses plus for_each, fold, reduce, sum, map_init, par_bridge, flat_map, join, current_num_threads; a change using anything else fails to build and is reported as a machinery error (exit 2), not as a verdict.", "3/C09"),
     "C10": ("E3 pred", "exhaustive enumeration of predicate inputs on small integer grids and their embeddings into the 52-bit range, against exact integer oracles; exhaustive grid-map tables",
             "All 248 832 5-tuples of the grid {0,1,2}x{0,1}x{0,1} (thorough: all 14 348 907 of {0,1,2}^3) through the exact predicate vs the i128 determinant, the geometric meaning (orientation x exact rational circumsphere) and a 512-bit oracle; each tuple under 60+ embeddings into [0,2^52) (scales up to 2^50, translations to the corners/centre, axis permutations, reflections: sign = parity); adversarial co-spherical families with +-1 displacements at 2^20..2^50 scale and integer points on three large spheres; orientation of every vertex dual of every reachable cell of the 3D states (on the library's own integers); grid map range / monotonicity / uniform scaling over every queryable position (box lattice, six wall mirrors, 3^d images) of every box x dimensionality x boundary kind. Run in a debug-assertions and a release build.",
@@ -68,7 +70,7 @@ CHECKS = {
             "For every subset of the 1D lattice, of a 3x3 (thorough 4x4) 2D lattice, 3D lattice subsets up to K, generic pool subsets, and perfect 4^3 (5^3) lattices with <= 1 generator removed, reflective and periodic, three boxes: first item = (query, no shift); every generator (periodic: each of its 3^d images) visited exactly once; shifts are exact lattice vectors, absent iff zero; distances non-decreasing (strict comparison where the arithmetic is exact, coordinate-scaled tolerance otherwise).",
             "Point sets up to 125 generators; 10^4-point sets are outside the bound.", "3/C17"),
     "C18": ("E4 clip", "explicit-state search over storage orders: all permutations x rotations of the removed vertices of every reachable (cell, plane) pair; exhaustive drive of the boundary cycle over all small triangulated disks",
-            "Cells = every intermediate and final cell the builder reaches for the 3D states (rebuilt clip by clip through the hook), planes = the builder's next neighbour and the bisector towards every unused alphabet point; all |R|! orders (|R| <= 6 quick / 7 thorough) x all 3^|R| rotations (|R| <= 3 / 4; patterns above) x arrangements of the kept vertices: same canonical vertex set and volume as the unpermuted clip, closed polytope, Euler, never a panic. Companion: the real SimpleCycle driven by the builder's greedy loop over every order of every triangulated disk with <= 6 / 7 triangles: never stuck, always the disk's boundary. Cells with > 64 planes (shell inputs).",
+            "Cells = every intermediate and final cell the builder reaches for the 3D states (rebuilt clip by clip through the hook), planes = the builder's next neighbour and the bisector towards every unused alphabet point; all |R|! orders (|R| <= 6 quick / 7 thorough) x all 3^|R| rotations (|R| <= 3 / 4; patterns above) x arrangements of the kept vertices: same canonical vertex set and volume as the unpermuted clip, closed polytope, Euler, never a panic. Companion: the real SimpleCycle driven by the builder's greedy loop over every order of every triangulated disk with <= 6 / 7 triangles: never stuck, always the disk's boundary. Cells with up to 300 planes (shell inputs, beyond any 8-bit counter); removed sets of up to 40 (quick) / 72 (thorough) vertices (m-sided prism cut by one plane) under a committed menu of orders (identity, every transposition, reversal, rotations, interleavings); the same clip from elsewhere: after a round trip with_faces().discard_faces() the clip must give the same polytope; a panic of the unpermuted clip of a reachable cell is a violation.",
             "A combinatorial configuration is enumerated completely once per run and re-clipped for two orders at later occurrences. Above the permutation bound the orders are deviation-bounded, as the property allows ('sampled above').", "3/C18"),
     "C19": ("E5 aux", "exhaustive enumeration of helper arguments on small integer lattices (x scales); defining equations evaluated in exact integer arithmetic",
             "intersect_planes for all triples of non-zero normals in {-2..2}^3 with det != 0 (normalised and not); project_onto / project_onto_intersection (on the plane/line, along the normal / orthogonal to the line, idempotent, exact value) incl. non-unit normals and three scales; signed_volume_tet / signed_area_tri on all 4-tuples of {0,1,2}^3 (value, sign convention, antisymmetry); spheres through all affinely independent 2-,3-,4-tuples; extend/contains on a sphere x point menu at three scales.", "Non-degenerate arguments only, as the property states.", "3/C19"),
@@ -88,6 +90,8 @@ def main():
         i = p['id']
         if i in CHECKS:
             eng, tech, text, note, ref = CHECKS[i]
+            if eng == "E1 tess":
+                text = text + E1_SPACE
             checks.append({
                 "property_id": i,
                 "quick_cmd": "./check %s quick" % i,
